@@ -5029,7 +5029,7 @@ bracket_addr_ok(const char *s, const char *eos)
 {
 	if (s + 3 > eos || *s != '[' || *(eos-1) != ']')
 		return 0;
-	if (s[1] == 'v') {
+	if (s[1] == 'v' || s[1] == 'V') {
 		/* IPvFuture, or junk.
 		   "v" 1*HEXDIG "." 1*( unreserved / sub-delims / ":" )
 		 */
@@ -5046,6 +5046,8 @@ bracket_addr_ok(const char *s, const char *eos)
 		if (*s != '.')
 			return 0;
 		++s;
+		if (s == eos) /*require at least one*/
+			return 0;
 		while (s < eos) {
 			if (CHAR_IS_UNRESERVED(*s) ||
 			    strchr(SUBDELIMS, *s) ||
